@@ -79,6 +79,8 @@ pub enum RK {
     Select { a: Src, b: Src },
     Burst { m: S, a: Src },
     SpawnAfter { a: Src, m: S },
+    /// spawned by SpawnAfter: notifies the shell with `arg`
+    NotifyArg { m: S, arg: u32 },
     /// awaits the join handles of `child` (slot in the same command)
     AwaitJoin { child: usize, m: S, fired: bool },
     ChildReq { a: Src },
@@ -647,14 +649,18 @@ impl RCmd {
             }
             RK::SpawnAfter { a, m } => match a.st {
                 St::V(v) => {
-                    cx.got(a.site, v);
                     let m = *m;
-                    self.spawnq.push(task(RK::Fresh(P::Event(m))));
+                    self.spawnq.push(task(RK::NotifyArg { m, arg: v }));
                     Run::Finished
                 }
                 St::G => Run::Finished,
                 _ => Run::Pending,
             },
+            RK::NotifyArg { m, arg } => {
+                let mut src = Src::new(*m);
+                cx.eff(&mut src, Kind::Never, *arg);
+                Run::Finished
+            }
             RK::Burst { m, a } => match a.st {
                 St::V(v) => {
                     cx.mark(*m, 2);
